@@ -239,6 +239,9 @@ def run(ctx: Ctx) -> None:
         "by the separator the reader splits on, the reader keeps exactly "
         "the first line, and parses through the validating base reader. Not "
         "decided: equality of derived attributes after the trip.")
+    ctx.rule("D19.4", "keys of mapping-valued record fields survive the "
+             "CSV trip; the compact-string reader accepts every value the "
+             "constructor accepts")
     for rid, txt in (("D19.1", "CSV title/row/reader agreement"),
                      ("D19.2", "compact instance string fields"),
                      ("D19.3", "first-line text forms")):
@@ -248,7 +251,9 @@ def run(ctx: Ctx) -> None:
         mod = ctx.repo.module(BP + modn)
         _csv_writer(ctx, mod)
         _csv_reader(ctx, mod, rec)
+        _mapping_keys(ctx, mod, rec)
     _compact(ctx)
+    _compact_domains(ctx)
     _first_line_forms(ctx)
 
 
@@ -346,6 +351,362 @@ def _csv_reader(ctx: Ctx, mod: Module, rec_name: str) -> None:
            "every key the reader looks up is a key the writer emits" if
            not missing else f"reader looks up {missing}, which the writer "
            "never emits", construct=f"{mod.name.split('.')[-1]} key sets")
+
+
+# ------------------------------------------------------------------ D19.4
+def _pred(repo: Any, mod: Module, e: ast.expr, par: str, key: str) -> Any:
+    """Constant-fold a predicate lambda body for one concrete string."""
+    if isinstance(e, ast.Name) and e.id == par:
+        return key
+    if isinstance(e, ast.UnaryOp) and isinstance(e.op, ast.Not):
+        v = _pred(repo, mod, e.operand, par, key)
+        return None if v is None else not v
+    if isinstance(e, ast.BoolOp):
+        vs = [_pred(repo, mod, x, par, key) for x in e.values]
+        if any(v is None for v in vs):
+            return None
+        return all(vs) if isinstance(e.op, ast.And) else any(vs)
+    if isinstance(e, ast.Compare) and len(e.ops) == 1:
+        a = _pred(repo, mod, e.left, par, key)
+        b = _pred(repo, mod, e.comparators[0], par, key)
+        if a is None or b is None:
+            return None
+        op = e.ops[0]
+        if isinstance(op, ast.Eq):
+            return a == b
+        if isinstance(op, ast.NotEq):
+            return a != b
+        if isinstance(op, ast.In):
+            return a in b
+        if isinstance(op, ast.NotIn):
+            return a not in b
+        return None
+    if isinstance(e, ast.Tuple):
+        vs = [_pred(repo, mod, x, par, key) for x in e.elts]
+        return None if any(v is None for v in vs) else tuple(vs)
+    if isinstance(e, ast.BinOp) and isinstance(e.op, ast.Add):
+        a = _pred(repo, mod, e.left, par, key)
+        b = _pred(repo, mod, e.right, par, key)
+        if isinstance(a, str) and isinstance(b, str):
+            return a + b
+        return None
+    if isinstance(e, ast.Call) and isinstance(e.func, ast.Attribute) and \
+            e.func.attr in ("startswith", "endswith") and not e.keywords:
+        if isinstance(e.func.value, ast.Name) and e.func.value.id == "str" \
+                and len(e.args) == 2:
+            subj, arg = e.args
+        elif len(e.args) == 1:
+            subj, arg = e.func.value, e.args[0]
+        else:
+            return None
+        sv = _pred(repo, mod, subj, par, key)
+        av = _pred(repo, mod, arg, par, key)
+        if not isinstance(sv, str) or not isinstance(av, (str, tuple)):
+            return None
+        return sv.startswith(av) if e.func.attr == "startswith" \
+            else sv.endswith(av)
+    c = repo.const(mod, e)
+    return c
+
+
+def _produced_keys(ctx: Ctx, param: str) -> dict[str, str]:
+    """Keys of the repository's default mappings for a parameter name."""
+    repo = ctx.repo
+    out: dict[str, str] = {}
+    for modn in ("packing_result", "packing_statistics"):
+        mod = repo.module(BP + modn)
+        for fn in ast.walk(mod.tree):
+            if not isinstance(fn, ast.FunctionDef):
+                continue
+            args = fn.args.args + fn.args.kwonlyargs
+            defaults = [None] * (len(fn.args.args) - len(
+                fn.args.defaults)) + list(fn.args.defaults) + list(
+                fn.args.kw_defaults)
+            for a, d in zip(args, defaults):
+                if a.arg != param or d is None:
+                    continue
+                r = d
+                if isinstance(r, ast.Name):
+                    rr = repo.resolve_expr(mod, r)
+                    if isinstance(rr, tuple) and rr[0] == "expr":
+                        dm, r = rr[1], rr[2]
+                    else:
+                        continue
+                else:
+                    dm = mod
+                while isinstance(r, ast.Call) and r.args:
+                    r = r.args[0]
+                if isinstance(r, ast.Dict):
+                    for k in r.keys:
+                        c = repo.const(dm, k) if k is not None else None
+                        if isinstance(c, str):
+                            out[c] = f"{dm.name.split('.')[-1]}:{k.lineno}"
+    return out
+
+
+def _mapping_keys(ctx: Ctx, mod: Module, rec_name: str) -> None:
+    repo = ctx.repo
+    short = mod.name.split(".")[-1]
+    r = mod.classes["CsvReader"]
+    init = r.methods["__init__"]
+    parse = r.methods["parse_row"]
+    rec = mod.classes[rec_name]
+    params = rec.methods["__init__"].params[1:]
+    fams: dict[str, dict[str, Any]] = {}
+    for n in ast.walk(init.node):
+        if not (isinstance(n, (ast.Assign, ast.AnnAssign)) and isinstance(
+                n.value, ast.Call) and isinstance(n.value.func, ast.Name)
+                and n.value.func.id == "csv_select_scope"):
+            continue
+        tg = n.targets[0] if isinstance(n, ast.Assign) else n.target
+        f = _self_field(tg)
+        call = n.value
+        if f is None or not call.args or not isinstance(
+                call.args[0], ast.Lambda):
+            continue
+        lam = call.args[0]
+        body = lam.body
+        while isinstance(body, ast.Call) and isinstance(
+                body.func, ast.Name) and body.func.id in (
+                "tuple", "sorted", "list") and body.args:
+            body = body.args[0]
+        ident = None
+        if isinstance(body, (ast.GeneratorExp, ast.ListComp)) and len(
+                body.generators) == 1 and isinstance(
+                body.generators[0].target, ast.Tuple) and isinstance(
+                body.elt, ast.Tuple) and body.elt.elts and isinstance(
+                body.generators[0].target.elts[0], ast.Name):
+            kn = body.generators[0].target.elts[0].id
+            k0 = body.elt.elts[0]
+            ident = isinstance(k0, ast.Name) and k0.id == kn
+        scope_e = call.args[2] if len(call.args) > 2 else next(
+            (k.value for k in call.keywords if k.arg == "scope"), None)
+        scope = None if scope_e is None else repo.const(mod, scope_e)
+        scope_known = scope_e is None or isinstance(scope, str) or (
+            isinstance(scope_e, ast.Constant) and scope_e.value is None)
+        skip = next((k.value for k in call.keywords
+                     if k.arg == "skip_orig_key"), None)
+        fams[f] = {"ident": ident, "scope": scope, "known": scope_known,
+                   "skip": skip, "node": n}
+    # which constructor parameter receives the keys of each family?
+    call = next((n for n in ast.walk(parse.node) if isinstance(n, ast.Call)
+                 and isinstance(n.func, ast.Name)
+                 and n.func.id == rec_name), None)
+    ctx.need(call is not None, f"{short}.CsvReader.parse_row builds "
+             f"{rec_name}")
+    n_fam = 0
+    for p, a in zip(params, call.args):
+        if not isinstance(a, ast.DictComp):
+            continue
+        g = a.generators[0]
+        f = _self_field(g.iter)
+        if f not in fams or not (isinstance(g.target, ast.Tuple) and isinstance(
+                a.key, ast.Name) and isinstance(g.target.elts[0], ast.Name)
+                and a.key.id == g.target.elts[0].id):
+            continue
+        fam = fams[f]
+        produced = _produced_keys(ctx, p)
+        if not produced:
+            continue       # no key of this family is fixed by the repository
+        n_fam += 1
+        problems = []
+        if fam["ident"] is not True or not fam["known"]:
+            problems.append("the key transformation of the column selector "
+                            "is not recognised")
+        else:
+            sc = fam["scope"]
+            for k, where in sorted(produced.items()):
+                if sc and k.startswith(sc + "."):
+                    problems.append(
+                        f"key {k!r} ({where}) is written as column {k!r} "
+                        f"but read back as {k[len(sc) + 1:]!r} (the scope "
+                        f"{sc!r} is stripped by csv_select_scope)")
+                elif sc and k != sc:
+                    problems.append(f"key {k!r} ({where}) lies outside the "
+                                    f"selected scope {sc!r}")
+                elif not sc and fam["skip"] is not None and isinstance(
+                        fam["skip"], ast.Lambda):
+                    lam = fam["skip"]
+                    v = _pred(repo, mod, lam.body, lam.args.args[0].arg, k)
+                    if v is True:
+                        problems.append(f"key {k!r} ({where}) is filtered "
+                                        "out by skip_orig_key")
+                    elif v is None:
+                        ctx.notes.append(
+                            f"{short}: skip_orig_key of {f} not decided "
+                            f"for {k!r}")
+        ctx.ob("D19.4", init, fam["node"], not problems,
+               f"{short}.CsvReader: the {len(produced)} keys the repository "
+               f"puts into `{p}` ({', '.join(sorted(produced))}) are read "
+               "back unchanged" if not problems else
+               f"{short}.CsvReader: `{p}` does not survive the CSV trip: "
+               + "; ".join(problems)[:600],
+               construct=f"{short} keys of {p}")
+    ctx.count(f"{short}_key_families", n_fam)
+
+
+def _range_calls(fi: FuncInfo, fname: str) -> list[ast.Call]:
+    return [n for n in ast.walk(fi.node) if isinstance(n, ast.Call)
+            and isinstance(n.func, ast.Name) and n.func.id == fname
+            and len(n.args) == 4]
+
+
+def _local_def(fi: FuncInfo, name: str) -> ast.expr | None:
+    d = [n for n in ast.walk(fi.node)
+         if isinstance(n, (ast.Assign, ast.AnnAssign)) and isinstance(
+             n.targets[0] if isinstance(n, ast.Assign) else n.target,
+             ast.Name) and (n.targets[0] if isinstance(n, ast.Assign)
+                            else n.target).id == name and n.value]
+    return d[0].value if len(d) == 1 else None
+
+
+def _bound(repo: Any, fi: FuncInfo, e: ast.expr,
+           ren: dict[str, str]) -> Any:
+    """A range bound: an int, or ('max', {quantities}) / ('q', quantity)."""
+    c = repo.const_in(fi, e)
+    if isinstance(c, int):
+        return c
+    if isinstance(e, ast.Name):
+        if e.id in ren:
+            return ("q", ren[e.id])
+        d = _local_def(fi, e.id)
+        if d is not None:
+            return _bound(repo, fi, d, ren)
+    if isinstance(e, ast.Call) and isinstance(e.func, ast.Name) and \
+            e.func.id in ("max", "min") and not e.keywords:
+        parts = [_bound(repo, fi, a, ren) for a in e.args]
+        if all(isinstance(x, tuple) and x[0] == "q" for x in parts):
+            return (e.func.id, frozenset(x[1] for x in parts))
+    return ("?", ast.unparse(e))
+
+
+def _compact_domains(ctx: Ctx) -> None:
+    """The reader accepts every value the constructor accepts."""
+    repo = ctx.repo
+    mod = repo.module(BP + "instance")
+    rd = repo.func(mod.name, "Instance.from_compact_str")
+    new = repo.func(mod.name, "Instance.__new__")
+    cparams = new.params[1:]               # name, bin_width, bin_height, matrix
+    # ---- constructor: quantity -> (lo, hi)
+    unpack: list[str] = []
+    for n in ast.walk(new.node):
+        if isinstance(n, ast.Assign) and isinstance(
+                n.targets[0], ast.Tuple) and isinstance(
+                n.value, ast.Name) and n.value.id == "row":
+            unpack = [t.id for t in n.targets[0].elts
+                      if isinstance(t, ast.Name)]
+    ren_c = {p: p for p in cparams}
+    c_rng: dict[str, tuple[Any, Any, ast.Call]] = {}
+    for c in _range_calls(new, "check_int_range"):
+        a = c.args[0]
+        while isinstance(a, ast.Call) and isinstance(
+                a.func, ast.Name) and a.func.id == "int" and a.args:
+            a = a.args[0]
+        q = None
+        if isinstance(a, ast.Name) and a.id in cparams:
+            q = a.id
+        elif isinstance(a, ast.Name) and a.id in unpack:
+            q = f"col{unpack.index(a.id)}"
+        elif isinstance(a, ast.Call) and ast.unparse(a) == \
+                f"len({cparams[-1]})":
+            q = "rows"
+        if q is not None and q not in c_rng:
+            c_rng[q] = (_bound(repo, new, c.args[2], ren_c),
+                        _bound(repo, new, c.args[3], ren_c), c)
+    ctx.floor("constructor_ranges", len(c_rng), 6)
+    # ---- reader: which local feeds which constructor parameter
+    call = next((n for n in ast.walk(rd.node) if isinstance(n, ast.Call)
+                 and isinstance(n.func, ast.Name)
+                 and n.func.id == "Instance"), None)
+    ctx.need(call is not None, "from_compact_str builds an Instance")
+    ren_r = {a.id: p for p, a in zip(cparams, call.args)
+             if isinstance(a, ast.Name)}
+    idx_pos = {}
+    for nm in ("IDX_WIDTH", "IDX_HEIGHT", "IDX_REPETITION"):
+        v = repo.const(mod, ast.Name(id=nm, ctx=ast.Load()))
+        if isinstance(v, int):
+            idx_pos[nm] = v
+    r_rng: list[tuple[str, Any, Any, ast.Call]] = []
+    for c in _range_calls(rd, "check_to_int_range"):
+        a = c.args[0]
+        q = None
+        par = None
+        for n in ast.walk(rd.node):
+            if isinstance(n, (ast.Assign, ast.AnnAssign)) and n.value is c:
+                tg = n.targets[0] if isinstance(n, ast.Assign) else n.target
+                if isinstance(tg, ast.Name):
+                    par = tg.id
+        if par in ren_r:
+            q = ren_r[par]
+        elif isinstance(a, ast.Subscript) and isinstance(
+                a.slice, ast.Name) and a.slice.id in idx_pos:
+            q = f"col{idx_pos[a.slice.id]}"
+        elif par is not None and any(
+                isinstance(n, ast.For) and par in ast.unparse(n.iter)
+                for n in ast.walk(rd.node)):
+            q = "rows"
+        if q is not None:
+            r_rng.append((q, _bound(repo, rd, c.args[2], ren_r),
+                          _bound(repo, rd, c.args[3], ren_r), c))
+    ctx.floor("reader_ranges", len(r_rng), 6)
+
+    def lo_of(b: Any) -> int | None:      # smallest value a bound can take
+        if isinstance(b, int):
+            return b
+        if b[0] == "q" and b[1] in c_rng and isinstance(
+                c_rng[b[1]][0], int):
+            return c_rng[b[1]][0]
+        if b[0] in ("max", "min"):
+            los = [lo_of(("q", x)) for x in b[1]]
+            if all(x is not None for x in los):
+                return max(los) if b[0] == "max" else min(los)
+        return None
+
+    def hi_of(b: Any) -> int | None:      # largest value a bound can take
+        if isinstance(b, int):
+            return b
+        if b[0] == "q" and b[1] in c_rng and isinstance(
+                c_rng[b[1]][1], int):
+            return c_rng[b[1]][1]
+        if b[0] in ("max", "min"):
+            his = [hi_of(("q", x)) for x in b[1]]
+            if all(x is not None for x in his):
+                return max(his)
+        return None
+
+    def geq(a: Any, b: Any) -> bool:      # a >= b whatever the instance
+        if a == b:
+            return True
+        la, hb = lo_of(a), hi_of(b)
+        return la is not None and hb is not None and la >= hb
+
+    for q, lo, hi, c in r_rng:
+        if q not in c_rng:
+            ctx.ob("D19.4", rd, c, False,
+                   f"the reader validates `{q}` but the constructor range "
+                   "for it was not found", construct=f"compact range {q}")
+            continue
+        clo, chi, cc = c_rng[q]
+        ok = geq(clo, lo) and geq(hi, chi)
+        ctx.ob("D19.4", rd, c, ok,
+               f"from_compact_str accepts {q} in [{_sb(lo)}, {_sb(hi)}], "
+               f"which covers the constructor's [{_sb(clo)}, {_sb(chi)}]"
+               if ok else
+               f"from_compact_str accepts {q} only in [{_sb(lo)}, "
+               f"{_sb(hi)}] but Instance.__new__ (line {cc.lineno}) accepts "
+               f"[{_sb(clo)}, {_sb(chi)}]: a valid instance whose {q} lies "
+               "in the difference is written by to_compact_str and rejected "
+               "when read back", construct=f"compact range {q}")
+
+
+def _sb(b: Any) -> str:
+    if isinstance(b, int):
+        return str(b)
+    if b[0] == "q":
+        return b[1]
+    if b[0] in ("max", "min"):
+        return f"{b[0]}({', '.join(sorted(b[1]))})"
+    return str(b[1])
 
 
 # ------------------------------------------------------------------ D19.2
